@@ -110,7 +110,7 @@ func (in *Interp) now() *Term {
 		return t
 	}
 	if in.nowT == nil {
-		in.nowT = in.freshInput("now", 64)
+		in.nowT = in.freshInput("clk", 64)
 		// instants stay well inside the int64 range and after the zero time
 		in.assumeTerm(in.tb.Cmp(OpSlt, in.tb.Const(1<<40, 64), in.nowT))
 		in.assumeTerm(in.tb.Cmp(OpSlt, in.nowT, in.tb.Const(1<<61, 64)))
@@ -119,7 +119,7 @@ func (in *Interp) now() *Term {
 	if in.nowPinned {
 		return in.nowT
 	}
-	n := in.freshInput("now", 64)
+	n := in.freshInput("clk", 64)
 	in.assumeTerm(in.tb.Cmp(OpSle, in.nowT, n))
 	in.assumeTerm(in.tb.Cmp(OpSlt, n, in.tb.Const(1<<61, 64)))
 	in.nowT = n
@@ -130,7 +130,7 @@ func (in *Interp) freshInput(name string, w int) *Term {
 	k := in.inputSeq[name]
 	in.inputSeq[name] = k + 1
 	full := name
-	if k > 0 || strings.HasPrefix(name, "now") {
+	if k > 0 || name == "clk" {
 		full = fmt.Sprintf("%s#%d", name, k)
 	}
 	t := in.tb.Var(full, w)
